@@ -114,6 +114,16 @@ func VerifStmtOf(r Response) (id uint32, paramCount int, offsets []int, ok bool)
 	return s.id, s.paramCount, append([]int(nil), s.offsets...), true
 }
 
+// VerifStmtItems returns the pieces the prepared statement was cut into (text pieces and "?"
+// markers, in order): what COM_STMT_EXECUTE reassembles the statement text from.
+func VerifStmtItems(r Response) []string {
+	s, isStmt := r.Data.(*Stmt)
+	if !isStmt || s == nil {
+		return nil
+	}
+	return append([]string(nil), s.sqlItems...)
+}
+
 // VerifStmtIDs lists the open statement handles of the session.
 func VerifStmtIDs(se *SessionExecutor) []uint32 {
 	ids := make([]uint32, 0, len(se.stmts))
